@@ -5,6 +5,7 @@ package app
 import (
 	"fmt"
 	"os"
+	"time"
 	"testing"
 	"testing/synctest"
 
@@ -81,12 +82,33 @@ func TestVerifC16(t *testing.T) {
 			}
 			topo[h] = mysql.CascadeNodeConfiguration{StreamFrom: sf}
 		}
-		defer func() {
-			if r := recover(); r != nil {
-				panicked = true
-			}
+		// "always terminates": the call runs under a watchdog of real time (a resolution takes microseconds); a call
+		// that has not returned after 5 s is reported with its input as the failing one and the run stops there (the
+		// spinning goroutine cannot be killed, the test process ends with the test)
+		type c16Ret struct {
+			res      string
+			panicked bool
+		}
+		done := make(chan c16Ret, 1)
+		node := app.cluster.Get(fmt.Sprintf("h%d", in.Self))
+		go func() {
+			var r c16Ret
+			defer func() {
+				if x := recover(); x != nil {
+					r.panicked = true
+				}
+				done <- r
+			}()
+			r.res = app.findBestStreamFrom(node, state, "h1", topo)
 		}()
-		res = app.findBestStreamFrom(app.cluster.Get(fmt.Sprintf("h%d", in.Self)), state, "h1", topo)
+		select {
+		case r := <-done:
+			res, panicked = r.res, r.panicked
+		case <-time.After(5 * time.Second):
+			m.Violation("resolving the source of a cascade replica always terminates", map[string]any{"resolver": in}, "findBestStreamFrom has not returned after 5 s of real time")
+			o.WriteMeta("c16", m)
+			t.Fatalf("findBestStreamFrom does not terminate on %+v", in)
+		}
 		return
 	}
 	var rp c16ResIn
